@@ -218,7 +218,17 @@ def F25():
     return is_domain(d) and (not find_domains(b"see " + d + b" now") or not find_emails(b"mail bob@" + d + b" now"))
 
 
-ALL = ["F1", "F2", "F3", "F4", "F5", "F6", "F7", "F8", "F9", "F12", "F13", "F14", "F15", "F16", "F18", "F19", "F10", "F20", "F21", "F22", "F23", "F24", "F25"]
+def F26():
+    from multidecoder.multidecoder import Multidecoder
+    t = Multidecoder().scan(b"createobject(" * 1200 + b"x" + b")" * 1200)
+    try:
+        t.flatten()
+    except RecursionError:
+        return True
+    return False
+
+
+ALL = ["F1", "F2", "F3", "F4", "F5", "F6", "F7", "F8", "F9", "F12", "F13", "F14", "F15", "F16", "F18", "F19", "F10", "F20", "F21", "F22", "F23", "F24", "F25", "F26"]
 if __name__ == "__main__":
     for name in (sys.argv[1:] or ALL):
         try:
